@@ -145,7 +145,7 @@ pub fn main(opts: &Opts) {
                 }
                 (e.args[1], e.args[2])
             }
-            "w.cmd.end" | "owned.sent" => continue,
+            "w.cmd.end" | "owned.sent" | "w.dist.scan" => continue,
             "c.get.after" | "g.get.after" => (e.args[0], e.args[1]),
             _ => (e.args.first().copied().unwrap_or(0), e.args.get(1).copied().unwrap_or(0)),
         };
